@@ -131,7 +131,7 @@ func refJSONDecode(args []cty.Value) expect {
 	text := args[0].AsString()
 	t, ok := decodeJSONRef(text)
 	if !ok {
-		return failure("encoding/json rejects the text", "invalid-json")
+		return failure("encoding/json rejects the text", invalidJSONClass(text))
 	}
 	switch {
 	case t.dupKeys:
@@ -140,6 +140,22 @@ func refJSONDecode(args []cty.Value) expect {
 		return free("jsondecode-number-with-a-large-exponent")
 	}
 	return value(t.val, jsonShapeClass(t.val))
+}
+
+// invalidJSONClass names the kind of invalid text: a complete JSON value followed by a stray
+// closing bracket or brace is its own class.
+func invalidJSONClass(text string) string {
+	dec := json.NewDecoder(strings.NewReader(text))
+	dec.UseNumber()
+	var v any
+	if err := dec.Decode(&v); err != nil {
+		return "invalid-json"
+	}
+	rest := strings.TrimLeft(text[dec.InputOffset():], " \t\r\n")
+	if rest != "" && (rest[0] == ']' || rest[0] == '}') {
+		return "invalid-json:value-followed-by-a-closing-bracket-or-brace"
+	}
+	return "invalid-json:value-followed-by-more-text"
 }
 
 func jsonShapeClass(v cty.Value) string {
